@@ -131,4 +131,23 @@ def judgeStream (s : Bytes) (frames : List (UInt8 × Bytes)) (cseqs : List Nat) 
     else if rs != cseqs then "responses-differ"
     else "ok"
 
+/-- the complete units at the head of a stream (the rest is a unit still in flight, or garbage) -/
+def parsePrefix : Nat → Bytes → List Unit
+  | 0, _ => []
+  | fuel + 1, s =>
+    match nextUnit s with
+    | none => []
+    | some (u, rest) => u :: parsePrefix fuel rest
+
+/-- Verdict on the stream of a run that did not complete (a request was never answered, so not
+    every unit can be expected): the complete units that did arrive must still be the delivered
+    packets, in order — a frame whose payload is not the packet handed to the media goroutine is a
+    torn frame, whatever else went wrong. -/
+def judgePartial (s : Bytes) (frames : List (UInt8 × Bytes)) : String :=
+  let us := parsePrefix (s.length + 1) s
+  let fs := us.filterMap (fun u => match u with
+    | .frame c p => some (c, p)
+    | .response _ => none)
+  if fs.isPrefixOf frames then "incomplete" else "torn-frame"
+
 end IpcHub.InterleaveSpec
